@@ -63,6 +63,7 @@ struct Val {
     val_used(&o, "move-from");
     val_born(this, id, false);
     val_moved_from(&o);
+    o.id = -1000000 - id;  // a moved-from value is visibly different (like a string or a vector would be)
   }
   Val& operator=(const Val& o) {
     val_used(&o, "assign-from");
@@ -74,6 +75,7 @@ struct Val {
     val_used(&o, "move-assign-from");
     val_used(this, "move-assign-to");
     id = o.id;
+    if (this != &o) { val_moved_from(&o); o.id = -1000000 - id; }
     return *this;
   }
   ~Val() { val_dying(this); }
